@@ -38,6 +38,19 @@ def functions_of(pid):
     return sorted(out)
 
 
+_COVERS = [None]
+
+
+def _covers_baseline():
+    if _COVERS[0] is None:
+        import json
+        try:
+            _COVERS[0] = json.load(open(os.path.join(VERIF, "baseline", "covers.json")))
+        except Exception:
+            _COVERS[0] = {}
+    return _COVERS[0]
+
+
 def canaries_of(pid):
     return sorted(q for q, con in spec.CONTRACTS.items() if "#canary" in q and (pid in con.tags or "ALL" in con.tags))
 
@@ -116,6 +129,11 @@ def main(argv=None):
         ends = [k for k in cover_res if k.startswith(r.qual + "::cover::path")]
         if ends and all(cover_res[k][0] == "unsat" for k in ends):
             broken.append(f"{r.qual}: no feasible path (vacuous)")
+        base_ref = _covers_baseline().get(r.qual)
+        now_ref = sum(1 for k in ends if cover_res[k][0] == "unsat")
+        if base_ref is not None and now_ref > base_ref:
+            undecided.append(f"{r.qual}: {now_ref} infeasible paths, {base_ref} on the unchanged tree - a path that could be executed is "
+                             "contradictory now (possible vacuity: an unsupported comparison or a contradictory contract)")
         if not [vc for vc in r.vcs]:
             broken.append(f"{r.qual}: zero obligations generated")
         con_ = spec.CONTRACTS.get(r.qual)
